@@ -4,6 +4,7 @@ pub mod arena;
 pub mod dest;
 pub mod dso;
 pub mod dumper;
+pub mod elf;
 pub mod helpers;
 pub mod layout;
 pub mod md;
